@@ -164,7 +164,7 @@ def make_obj(fx, kind, reg=True, seed=0, coefficient=1.0):
         sg = aa.Grid2DIrregular(values=s)
         mesh = aa.Mesh2DRectangular.overlay_grid(shape_native=(3, 3) if kind == "rectA" else (3, 4), grid=sg)
         return aa.Mapper(
-            mapper_grids=aa.MapperGrids(mask=mask, source_plane_data_grid=sg, source_plane_mesh_grid=mesh),
+            mapper_grids=aa.MapperGrids(mask=mask, source_plane_data_grid=sg, source_plane_mesh_grid=mesh, adapt_data=fx["ds"].noise_map),
             over_sampler=osr, regularization=regul,
         )
     if kind == "del":
@@ -175,7 +175,7 @@ def make_obj(fx, kind, reg=True, seed=0, coefficient=1.0):
         verts = DEL_VERTS * scale + 1e-3 * r.uniform(-1, 1, size=DEL_VERTS.shape)
         mesh = aa.Mesh2DDelaunay(values=aa.Grid2DIrregular(values=verts))
         return aa.Mapper(
-            mapper_grids=aa.MapperGrids(mask=mask, source_plane_data_grid=sg, source_plane_mesh_grid=mesh),
+            mapper_grids=aa.MapperGrids(mask=mask, source_plane_data_grid=sg, source_plane_mesh_grid=mesh, adapt_data=fx["ds"].noise_map),
             over_sampler=osr, regularization=regul,
         )
     if kind in ("func", "funcS"):
